@@ -103,6 +103,10 @@ func ExtractMPIs(d []byte) ([]byte, []*big.Int, bool) {
 	if !ok {
 		return nil, nil, false
 	}
+	// every MPI needs at least its 4 byte length prefix, so a larger count can never be satisfied
+	if uint64(mpiCount) > uint64(len(current)/4) {
+		return nil, nil, false
+	}
 	result := make([]*big.Int, int(mpiCount))
 	for i := 0; i < int(mpiCount); i++ {
 		current, result[i], ok = ExtractMPI(current)
